@@ -6,7 +6,9 @@
    a list of steps ([Emit] = one insert_desired_file call, [Fail] = a materialisation error) and the
    roots, [run] = the inserts into the (target, path) map, dedup_roots.  Keys compare paths by
    COMPONENTS (Rust's Path equality), contents are bytes. *)
-From AP Require Import Base.Str Base.PathR Base.Sorting Model.Render Proofs.RenderP Proofs.RenderOrderP.
+From AP Require Import Base.Str Base.PathR Base.Sorting Gen.Tables Model.Render Model.RenderSpec
+     Proofs.RenderP Proofs.RenderSafeP Proofs.RenderOrderP Proofs.RenderSpecP.
+From Coq Require Import Sorting.Sorted.
 From Coq Require Import Sorting.Permutation.
 Open Scope N_scope.
 
@@ -72,6 +74,36 @@ Theorem C12_tree_order : forall c c' e prof filt,
 Proof. exact render_same. Qed.
 Print Assumptions C12_tree_order.
 
+(* Documented mapping.  [spec_output] (Model/RenderSpec.v) is the relation written from
+   docs/reference/targets.md + SPEC: selected-by-profile x permitted-by-module-targets x target kept by
+   --target x "option (default, required scope) -> directory -> kind of output" per target, with the
+   (default, scope) pairs parsed from the DOCS on every run.  For every configuration with distinct
+   module ids and target names (YAML map keys; validate_manifest checks the ids), file-system-shaped
+   trees ([cfg_ok]: non-empty relative paths; pairwise distinct within a tree), whenever rendering
+   succeeds the desired map holds bytes b at key k IF AND ONLY IF the documented mapping assigns b to k.
+   All six adapters (codex, claude_code, cursor, vscode, jetbrains, zed) are covered. *)
+Theorem C12_refines_spec : forall c e prof filt D R,
+  NoDup (map m_id (c_modules c)) -> NoDup (map t_name (c_targets c)) ->
+  (forall m, In m (c_modules c) -> NoDup (map f_rel (m_files m))) -> cfg_ok c ->
+  render c e prof filt = Ok (D, R) ->
+  forall k b, (exists x, lookup D k = Some x /\ d_bytes x = b) <-> spec_output c e prof filt k b.
+Proof. exact refines_spec. Qed.
+Print Assumptions C12_refines_spec.
+
+(* the selection logic on its own: exactly the documented set, in strictly increasing id order *)
+Theorem C12_selection : forall c prof ms,
+  NoDup (map m_id (c_modules c)) -> select_modules c prof = Some ms ->
+  (forall m, In m ms <-> selected c prof m) /\ StronglySorted (fun a b => str_compare (m_id a) (m_id b) = Lt) ms.
+Proof. exact select_modules_spec. Qed.
+Print Assumptions C12_selection.
+
+(* table theorem, re-proved on every run from the regenerated Gen/Tables.v: the option names, defaults
+   and required scopes documented in targets.md are those of the get_bool calls in src/targets/*.rs
+   (6 targets, 14 options) *)
+Theorem C12_doc_table : doc_render_option_table = render_option_table /\ length render_option_table = 14%nat.
+Proof. split; [exact doc_table_matches_source|reflexivity]. Qed.
+Print Assumptions C12_doc_table.
+
 (* ---------- non-vacuity ---------- *)
 
 Definition x_env : env := mkEnv (s "/h") (s "/p") None.
@@ -131,4 +163,20 @@ Proof.
   - vm_compute. split; reflexivity.
 Qed.
 
-
+(* the spec relation is inhabited where it should be (obtained THROUGH the theorem, so its hypotheses
+   are satisfiable) and empty where it should be (write_prompts: false) *)
+Example C12_spec_nonvacuous :
+  let c := x_cfg [x_prompt (s "prompt:b") [7]; x_prompt (s "prompt:a") [7]] in
+  spec_output c x_env (s "default") (s "all") (s "vscode", components (s "/p/.github/prompts/hello.prompt.md")) [7].
+Proof.
+  intro c.
+  assert (Hr : exists D R, render c x_env (s "default") (s "all") = Ok (D, R) /\
+                           exists x, lookup D (s "vscode", components (s "/p/.github/prompts/hello.prompt.md")) = Some x /\ d_bytes x = [7]).
+  { vm_compute. eexists _, _. split; [reflexivity|]. vm_compute. eexists. split; reflexivity. }
+  destruct Hr as [D [R [Hr Hx]]].
+  refine (proj1 (C12_refines_spec c x_env (s "default") (s "all") D R _ _ _ _ Hr _ _) Hx).
+  - vm_compute. repeat constructor; simpl; intuition discriminate.
+  - vm_compute. repeat constructor; simpl; intuition discriminate.
+  - intros m [ <- |[ <- |[]]]; vm_compute; repeat constructor; simpl; intuition discriminate.
+  - apply cfg_okb_ok. vm_compute. reflexivity.
+Qed.
